@@ -119,4 +119,23 @@ theorem inv_init (ts : List Th) (hts : ∀ t ∈ ts, t.initial = true) :
     simp [init, this]
   · simp [init, hb]
 
+/-! ## a list fact used when tasks are indices into a trigger's log -/
+
+theorem range'_filterMap_getElem? {α : Type} (full : List α) : ∀ (l : List α) (off : Nat),
+    (∀ i, i < l.length → full[off + i]? = l[i]?) → (List.range' off l.length).filterMap (fun i => full[i]?) = l
+  | [], _, _ => rfl
+  | a :: r, off, h => by
+    have h0 := h 0 (by simp)
+    simp only [Nat.add_zero, List.getElem?_cons_zero] at h0
+    rw [List.length_cons, List.range'_succ, List.filterMap_cons, h0]
+    simp only
+    rw [range'_filterMap_getElem? full r (off + 1) (fun i hi => by
+      have := h (i + 1) (by simp; omega)
+      rw [List.getElem?_cons_succ] at this
+      rw [← this]; congr 1; omega)]
+
+theorem range_filterMap_getElem? {α : Type} (l : List α) : (List.range l.length).filterMap (fun i => l[i]?) = l := by
+  rw [List.range_eq_range']
+  exact range'_filterMap_getElem? l l 0 (fun i _ => by rw [Nat.zero_add])
+
 end Hive.EventsPool
